@@ -10,6 +10,209 @@ def _c16_case(c):
     return {"raw": c}
 
 
+
+# ---------- in-Coq re-evaluation of a sample of correspondence cases (thorough tier) ----------
+_VM_PRELUDE = """From Oras Require Import Base.Prelude Model.Scopes Model.Challenge Model.AuthClient Model.Once Model.CacheSet.
+Definition chproj (h : str) :=
+  match parse_challenge h with
+  | ChUnjudged => None
+  | Ch s p => Some (s, length p, get_param s_realm p, get_param s_service p, get_param s_scope p)
+  end.
+Inductive psend :=
+| PReg (h : N) (a : auth)
+| PDist (h : N) (realm service scopes : str) (bb : option secret)
+| POAuth (h : N) (realm service scopes : str) (g : secret).
+Definition proj_send (s : send) : psend :=
+  match s with
+  | SReg h a _ => PReg h a
+  | SDist h r sv sc bb => PDist h r sv (join [c_space] sc) bb
+  | SOAuth h r sv sc g => POAuth h r sv (join [c_space] sc) g
+  end.
+Definition proj_run (o : list (list event * result)) :=
+  map (fun x => (map (fun e => proj_send (fst e)) (fst x), snd x)) o.
+"""
+
+
+def _cstr(h):
+    if h == "-":
+        return "([] : str)"
+    b = bytes.fromhex(h)
+    return "([" + "; ".join(str(x) for x in b) + "] : str)"
+
+
+def _clist(items):
+    return "([" + "; ".join(items) + "] : list str)"
+
+
+def _csecret(t):
+    k, rest = t[0], t[1:]
+    if k == "I":
+        h, i = rest.split(".")
+        return "(SIssued %s %s)" % (h, i)
+    return "(%s %s)" % ({"B": "SBasicTok", "P": "SUserPass", "F": "SRefresh", "A": "SAccess"}[k], rest)
+
+
+def _cauth(t):
+    if t == "-":
+        return "NoAuth"
+    return "(%s %s)" % ("ABasic" if t[0] == "b" else "ABearer", _csecret(t[1:]))
+
+
+class _Toks:
+    def __init__(self, l):
+        self.l, self.i = l, 0
+
+    def next(self):
+        self.i += 1
+        return self.l[self.i - 1]
+
+    def strs(self):
+        n = int(self.next())
+        return [_cstr(self.next()) for _ in range(n)]
+
+
+def _vm_goal(case, out):
+    t = _Toks(case.split(" "))
+    k = t.next()
+    if out.startswith("UNJUDGED") and k != "C":
+        return None
+    if k in ("S", "A"):
+        f = "clean_scopes" if k == "S" else "clean_actions"
+        return "%s %s = %s" % (f, _clist(t.strs()), _clist([_cstr(x) for x in out.split(" ")[1:]]))
+    if k == "G":
+        a = t.strs()
+        b_ = t.strs()
+        return "get_all_scopes clean_scopes %s %s = %s" % (_clist(a), _clist(b_), _clist([_cstr(x) for x in out.split(" ")[1:]]))
+    if k == "C":
+        h = _cstr(t.next())
+        if out.startswith("UNJUDGED"):
+            return "chproj %s = None" % h
+        o = out.split(" ")
+        sch = {"unknown": "SchUnknown", "basic": "SchBasic", "bearer": "SchBearer"}[o[1]]
+        return "chproj %s = Some (%s, %s%%nat, %s, %s, %s)" % (h, sch, o[2], _cstr(o[3]), _cstr(o[4]), _cstr(o[5]))
+    if k == "O":
+        n = int(t.next())
+        evs = []
+        for _ in range(n):
+            e = t.next()
+            g, _, v = e[1:].partition(".")
+            evs.append({"a": "OAcquire %s", "d": "ODone %s %s", "c": "OCancelF %s", "r": "OReadClosed %s %s", "x": "OCtxDone %s"}[e[0]]
+                       % ((g, v) if e[0] in "dr" else (g,)))
+        return "once_accepts [%s] = %s" % ("; ".join(evs), "true" if out == "ACCEPT" else "false")
+    if k == "KS":
+        n = int(t.next())
+        tbl = []
+        for _ in range(n):
+            g, h, sch, key = t.next(), t.next(), t.next(), t.next()
+            sch = {"basic": "SchBasic", "bearer": "SchBearer"}.get(sch, "SchUnknown")
+            tbl.append("(%s, mkCall (%s, %s, %s) None)" % (g, h, sch, _cstr(key)))
+        m = int(t.next())
+        evs = []
+        for _ in range(m):
+            e = t.next()
+            g, _, v = e[1:].partition(".")
+            c = e[0]
+            if c == "L":
+                evs.append("(CLoad %s, %s)" % (g, ("Some %s%%nat" % v) if v else "None"))
+            elif c == "D":
+                evs.append("(CDelete %s, None)" % g)
+            else:
+                oe = {"a": "OAcquire %s", "d": "ODone %s %s", "c": "OCancelF %s", "r": "OReadClosed %s %s", "x": "OCtxDone %s"}[c] \
+                    % ((g, v) if c in "dr" else (g,))
+                evs.append("(COnce %s (%s), None)" % (g, oe))
+        return "set_accepts [%s] [%s] = %s" % ("; ".join(tbl), "; ".join(evs), "true" if out == "ACCEPT" else "false")
+    if k == "H":
+        t.next()  # history seed
+        fl = {"none": "FNone", "shared": "FShared", "single": "FSingle"}[t.next()]
+        oauth2 = "true" if t.next() == "1" else "false"
+        creds = []
+        for _ in range(int(t.next())):
+            h, f = t.next(), t.next()
+            creds.append("(%s, mkCred %s)" % (h, " ".join("true" if c == "1" else "false" for c in f)))
+        hist = []
+        for _ in range(int(t.next())):
+            h = t.next()
+            body = {"none": "BNone", "rewind": "BRewindable", "once": "BOnce"}[t.next()]
+            hh = t.strs()
+            gh = t.strs()
+            script = []
+            for _ in range(int(t.next())):
+                a = t.next()
+                script.append({"K": "AOk", "F": "AFail", "X": "AErr"}.get(a[0]) or
+                              ("A401 %s" % _cstr(a[1:]) if a[0] == "U" else "ATok %s" % a[1:]))
+            hist.append("(mkReq %s %s %s %s, [%s])" % (h, _clist(hh), _clist(gh), body, "; ".join(script)))
+        exp = []
+        for part in out.split(" | "):
+            sends = []
+            res = None
+            for w in part.split(" "):
+                if w.startswith("="):
+                    res = {"=401": "RResp true", "=ok": "RResp false", "=nocred": "RErr ENoCred", "=missing": "RErr EMissing",
+                           "=fetch": "RErr EFetch", "=rewind": "RErr ERewind", "=transport": "RErr ETransport"}[w]
+                elif w[0] == "R":
+                    h, a = w[1:].split(":", 1)
+                    sends.append("PReg %s %s" % (h, _cauth(a)))
+                else:
+                    h, realm, service, scopes, last = w[1:].split(":")
+                    if w[0] == "D":
+                        sends.append("PDist %s %s %s %s %s" % (h, _cstr(realm), _cstr(service), _cstr(scopes),
+                                                               "None" if last == "-" else "(Some %s)" % _csecret(last)))
+                    else:
+                        sends.append("POAuth %s %s %s %s %s" % (h, _cstr(realm), _cstr(service), _cstr(scopes), _csecret(last)))
+            exp.append("([%s], %s)" % ("; ".join(sends), res))
+        return "proj_run (run_model %s %s [%s] [%s]) = [%s]" % (fl, oauth2, "; ".join(creds), "; ".join(hist), "; ".join(exp))
+    return None
+
+
+def _c16_vm_sample(d, tier, coq, build, want=300):
+    import os, subprocess, collections
+    if tier != "thorough":
+        return []
+    outs = {}
+    with open(os.path.join(d, "model.txt")) as f:
+        for l in f:
+            i, _, o = l.rstrip("\n").partition(" ")
+            outs[i] = o
+    quota = {"S": 80, "A": 40, "G": 30, "C": 80, "H": 30, "O": 25, "KS": 25}
+    total = collections.Counter()
+    with open(os.path.join(d, "cases.txt")) as f:
+        for l in f:
+            c = l.split(" ", 2)
+            if len(c) > 1 and len(l) <= 4000:
+                total[c[1]] += 1
+    got, stride, goals = collections.Counter(), collections.Counter(), []
+    with open(os.path.join(d, "cases.txt")) as f:
+        for l in f:
+            i, _, c = l.rstrip("\n").partition(" ")
+            k = c.split(" ", 1)[0]
+            if k not in quota or got[k] >= quota[k] or len(l) > 4000 or i not in outs:
+                continue
+            stride[k] += 1
+            if (stride[k] - 1) % max(1, total[k] // quota[k]) != 0:
+                continue
+            g = _vm_goal(c, outs[i])
+            if g:
+                got[k] += 1
+                goals.append((i, g))
+    vdir = os.path.join(build, "vm")
+    os.makedirs(vdir, exist_ok=True)
+    vf = os.path.join(vdir, "C16_cases.v")
+    with open(vf, "w") as f:
+        f.write(_VM_PRELUDE)
+        for i, g in goals:
+            f.write("\n(* %s *)\nGoal %s.\nProof. vm_compute. reflexivity. Qed.\n" % (i, g))
+    p = subprocess.run(["coqc", "-R", coq, "Oras", "-w", "-notation-overridden", vf], cwd=vdir, timeout=1500,
+                       stdout=subprocess.PIPE, stderr=subprocess.STDOUT, text=True)
+    with open(os.path.join(d, "vm_sample.txt"), "w") as f:
+        f.write("%d goals %s rc=%d\n%s" % (len(goals), dict(got), p.returncode, p.stdout[-3000:]))
+    if p.returncode != 0:
+        return ["vm_compute re-evaluation of %d sampled cases inside Coq disagrees with the extracted runner (or does not type-check): %s"
+                % (len(goals), p.stdout[-1200:])]
+    if len(goals) < want // 2:
+        return ["vm_compute sample too small: %d goals" % len(goals)]
+    return []
+
+
 CONFIG = {
     "properties_file": "Properties/C16.v",
     "proof_files": ["Base/Prelude.v", "Proofs/Scopes.v", "Proofs/ScopesIdem.v", "Proofs/AuthClient.v", "Proofs/AuthHistory.v", "Proofs/Once.v", "Proofs/CacheSet.v"],
@@ -18,18 +221,21 @@ CONFIG = {
     "ml_main": "c16_main.ml",
     "harness": "c16",
     "case_to_replay": _c16_case,
+    "post_model": _c16_vm_sample,
     "assumptions": [
         "Credential(ctx, hostport) returns the credential OF hostport (the model's SBasicTok/SUserPass/SRefresh/SAccess h are tainted with the host they were asked for); a CredentialFunc that ignores its argument is a configuration outside the theorems",
         "the servers are unconstrained: theorems quantify over every answer script (status, Www-Authenticate header bytes, token endpoint outcome); a token returned by the token endpoint during a request to h is by definition h's token (SIssued h id)",
         "requests that already carry an Authorization header are passed through unmodified (first lines of Client.Do) and are not modelled",
-        "transport errors of the underlying http.Client, context cancellation inside Client.Do and net/http redirect handling (header stripping on cross-host redirects) are not modelled",
+        "a send that gets no response (transport error of the underlying http.Client, or the request context cancelled at that moment) is the answer AErr of the model; cancellation while WAITING on another request's in-flight fetch is covered by the Once/CacheSet systems and the concurrent mixes, not by the sequential model; net/http redirect handling (header stripping on cross-host redirects) is not modelled",
+        "thorough tier: about 310 sampled correspondence cases (all case kinds) are re-evaluated inside Coq with vm_compute against the extracted runner's output (post_model hook)",
         "strconv.QuotedPrefix/Unquote is modelled for quoted strings without backslash and without bytes >= 0x80 (other headers are UNJUDGED in the correspondence and outside C16_no_cross_host only through parse_challenge, which the theorems treat as an arbitrary function of the header)",
         "encoding/json, encoding/base64, net/url query/form encoding of the token requests are observed by the harness (decoded on the fake token server) but not modelled",
         "syncutil.Once: the Go select/channel semantics are the LTS of Model/Once.v (buffered-1 channel holding true / empty / closed); runtime scheduling is quantified over as arbitrary interleavings of the visible events; panics inside f are not modelled",
-        "concurrentCache.Set under concurrency is the transition system of Model/CacheSet.v (status map, Once instances, results; status.Delete over-approximated); it is tied to the code by the harness oracle (set-cross-key) only, not by a trace correspondence: sync.Map internals are not observable without editing cache.go",
+        "concurrentCache.Set under concurrency is the transition system of Model/CacheSet.v (status map, Once instances, results; status.Delete over-approximated). Recorded executions of Set (direct and inside concurrent Client.Do mixes) are accepted by the extracted system: fetch start/end, delivered results and the identity of the in-flight entry (hook VerifInFlight) are observed; LoadOrStore/Delete are hidden and placed by the harness at the latest point the observations allow (documented in harness/cmd/c16/settrace.go)",
+        "executions in which a delivered token/error cannot be attributed to exactly one fetch (Basic tokens, static access tokens, sentinel errors) are not judged by the Set trace acceptor (counted as settrace/*/unjudged)",
     ],
     "level_text": "Coq theorems: CleanScopes is sorted, duplicate-free, idempotent, depends only on the set of its input (order/duplication/map-iteration-order insensitive) and '*' absorbs, for all byte strings; over every history of Client.Do calls with any cache flavour, credential table and server behaviour every send goes to the request's host or to a realm that host advertised and carries only that host's secrets, a Basic header reaches a host only after its Basic challenge, the cache stays host-tainted; <= 3 registry sends and <= 1 token fetch per call with a complete classification of non-success outcomes (valid credentials => the registry's non-401 answer); cache-key laws for the shared and the single-context cache; syncutil.Once as an LTS: one published result shared by all receivers, one fetch in flight, hand-over on cancellation",
-    "level_note": "two defects fixed in CleanScopes (duplicates of unparsable scopes; single-scope fast path disagreeing with the general path); the concurrent use of the cache and the Go runtime are exercised, not proved; strconv.Unquote escapes are outside the challenge model",
+    "level_note": "four defects fixed (two in CleanScopes, two in the single-context cache's Set) (duplicates of unparsable scopes; single-scope fast path disagreeing with the general path); concurrent Set executions are accepted by the CacheSet transition system (hidden map operations placed by the harness); the Go runtime is exercised, not proved; strconv.Unquote escapes are outside the challenge model",
     "technique": "machine-checked proof in Coq (invariants over histories, trace-acceptor LTS for Once, canonical-form algebra for scope sets) + translator-regenerated anchors/constants + model/implementation correspondence + independent oracle",
     "explanation": "theorems about executable models of scope.go, challenge.go, client.go, cache.go and syncutil/once.go; the extracted models are run against the real code on generated scope lists, challenge headers, request histories over 2-4 in-process registries/token servers with marker secrets, and Once traces; an independent oracle scans every outgoing request for foreign secrets and checks budget, validity, algebraic laws of CleanScopes and result sharing",
 }
